@@ -51,3 +51,139 @@ Definition c06_encode_spec (toks : list (list N)) : list (list N) :=
                  (match rest with p :: _ => p | [] => [] end)]
   | _ => REJECT_TOK
   end.
+
+(* ---------------- C11 / C09: ICMP ---------------- *)
+From TT Require Import Model.Icmp Generated.Consts.
+
+Definition c11_checksum (toks : list (list N)) : list (list N) :=
+  res_toks (rfc1071_checksum (match toks with b :: _ => b | [] => [] end)) (fun c => [[c]]).
+
+Definition c11_serialize_echo (toks : list (list N)) : list (list N) :=
+  match toks with
+  | [v6; id; seq] :: rest =>
+    res_toks (echo_serialize (if v6 =? 1 then V6_ECHO_REQUEST else V4_ECHO) id seq
+                             (match rest with d :: _ => d | [] => [] end))
+             (fun b => [b])
+  | _ => REJECT_TOK
+  end.
+
+Definition render_request (q : icmp_request) : list (list N) :=
+  [ [fam (rq_peer q); (if fam (rq_peer q) =? 4 then 0 else 1); rq_id q; rq_seq q; rq_ttl q; rq_size q];
+    ip_bytes (rq_peer q) ].
+
+Definition c11_decode_requests (toks : list (list N)) : list (list N) :=
+  res_toks (icmp_run [] toks)
+           (fun r => flat_map (fun out => [1000 + lenN out] :: flat_map render_request out) (snd r)).
+
+Definition c11_skip_header (toks : list (list N)) : list (list N) :=
+  match toks with
+  | [v6] :: rest =>
+    let p := match rest with p :: _ => p | [] => [] end in
+    res_toks (if v6 =? 1 then skip_ipv6_header p else skip_ipv4_header p)
+             (fun r => match r with Some (proto, payload) => [[proto]; payload] | None => REJECT_TOK end)
+  | _ => REJECT_TOK
+  end.
+
+Definition c11_parse_message (toks : list (list N)) : list (list N) :=
+  match toks with
+  | [v6; pf] :: peer :: rest =>
+    let p := match rest with p :: _ => p | [] => [] end in
+    let pa := {| fam := pf; ipv := be peer |} in
+    res_toks (m <- (if v6 =? 1 then v6_deserialize p else v4_deserialize p) ;;
+              k <- responded_echo_request m ;;
+              e <- icmp_encode pa m ;;
+              Ok (m, k, e))
+             (fun r =>
+                let '(m, k, e) := r in
+                [ [m_type m; m_code m; msg_len m;
+                   (match k with Some _ => 1 | None => 0 end);
+                   (match e with Some _ => 1 | None => 0 end)];
+                  (match k with Some (id, seq, _) => [id; seq] | None => [] end);
+                  (match k with Some (_, _, d) => d | None => [] end);
+                  (match e with Some b => b | None => [] end) ])
+  | _ => REJECT_TOK
+  end.
+
+Definition c11_echo_eq (toks : list (list N)) : list (list N) :=
+  match toks with
+  | [i1; s1] :: d1 :: [i2; s2] :: rest =>
+    [[if echo_eq (i1, s1, d1) (i2, s2, match rest with d :: _ => d | [] => [] end) then 1 else 0]]
+  | _ => REJECT_TOK
+  end.
+
+From TT Require Import Spec.Rfc1071.
+Definition c11_verify (toks : list (list N)) : list (list N) :=
+  [[if verifies (match toks with b :: _ => b | [] => [] end) then 1 else 0]].
+
+(* C11 live loopback scenario. Environment model (not part of the verified model): an echo request
+   sent to a loopback address is answered at once by the kernel with an echo reply from that
+   address carrying the same identifier, sequence number and data. *)
+From TT Require Import Model.IcmpWaiters.
+
+Record live := {
+  lw : wstate; lnow : N;
+  lq : list (N * list (list (list N)))       (* client -> queued rendered replies *)
+}.
+
+Fixpoint lq_get (q : list (N * list (list (list N)))) (c : N) : list (list (list N)) :=
+  match q with [] => [] | p :: r => if fst p =? c then snd p else lq_get r c end.
+Fixpoint lq_set (q : list (N * list (list (list N)))) (c : N) (v : list (list (list N))) :=
+  match q with
+  | [] => [(c, v)]
+  | p :: r => if fst p =? c then (c, v) :: r else p :: lq_set r c v
+  end.
+
+Definition live_packet (T cap : N) (st : live) (k : echo_key) (ip : list N) (ty : N) : live :=
+  let '(w1, d) := wstep T cap (lw st) (WPacket k) in
+  match d with
+  | Some c =>
+    let '(id, seq, _) := k in
+    {| lw := w1; lnow := lnow st;
+       lq := lq_set (lq st) c (lq_get (lq st) c ++ [[[2; 1; ty; 0; 1; id; seq]; ip]]) |}
+  | None => {| lw := w1; lnow := lnow st; lq := lq st |}
+  end.
+
+Definition live_expire (T cap : N) (st : live) : live :=
+  {| lw := fst (wstep T cap (lw st) (WExpire (lnow st))); lnow := lnow st; lq := lq st |}.
+
+Fixpoint live_run (fuel : nat) (T cap : N) (st : live) (ops : list (list N)) : list (list N) :=
+  match fuel with
+  | O => []
+  | S f =>
+    let st := live_expire T cap st in
+    match ops with
+    | [1; c; id; seq; ttl] :: ip :: data :: rest =>
+      let k := (id, seq, data) in
+      let w1 := fst (wstep T cap (lw st) (WSend c k (lnow st))) in
+      let st1 := {| lw := w1; lnow := lnow st; lq := lq st |} in
+      let loopback := match ip with
+                      | [a; _; _; _] => a =? 127
+                      | _ => list_eqb N.eqb ip [0;0;0;0;0;0;0;0;0;0;0;0;0;0;0;1]
+                      end in
+      let st2 := if loopback then live_packet T cap st1 k ip (if lenN ip =? 4 then 0 else 129)
+                 else st1 in
+      [1; 1] :: live_run f T cap st2 rest
+    | [2; c; wait] :: rest =>
+      match lq_get (lq st) c with
+      | m :: more =>
+        m ++ live_run f T cap
+               {| lw := fst (wstep T cap (lw st) (WRecv c)); lnow := lnow st;
+                  lq := lq_set (lq st) c more |} rest
+      | [] => [2; 0] :: [] :: live_run f T cap {| lw := lw st; lnow := lnow st + wait; lq := lq st |} rest
+      end
+    | [3] :: rest =>
+      [3; lenN (table (lw st)); lenN (deadlines (lw st))] :: live_run f T cap st rest
+    | [4; ms] :: rest =>
+      [4] :: live_run f T cap {| lw := lw st; lnow := lnow st + ms; lq := lq st |} rest
+    | [5; id; seq] :: data :: rest =>
+      [5; 1] :: live_run f T cap (live_packet T cap st (id, seq, data) [127; 0; 0; 1] 0) rest
+    | _ => []
+    end
+  end.
+
+Definition c11_live (toks : list (list N)) : list (list N) :=
+  match toks with
+  | [T; cap; n] :: ops =>
+    live_run (S (length ops)) T cap {| lw := winit; lnow := 0; lq := [] |} ops
+  | _ => REJECT_TOK
+  end.
